@@ -1,11 +1,32 @@
 """What MANIFEST.json claims.  A property appears in CLAIMS only when its rule module exists and passes on the tree."""
-FIX_COMMITS = ["df712f1 (C08)", "2aecc62 (C20)", "cb1690d (C04)", "73ebd7e (C13)", "c5bd516 (C03)", "b4ea818 (C07/C19)"]
+FIX_COMMITS = ["df712f1 (C08)", "2aecc62 (C20)", "cb1690d (C04)", "73ebd7e (C13)", "c5bd516 (C03)", "b4ea818 (C07/C19)", "594e79c (C08)"]
 
 CLAIMS = {
  "C07": {
   "text": "Static decision of the structural clauses: inside ReadParameter every store of a numeric value is dominated by the range test, stores the tested candidate unchanged and the failing side raises ValueError naming the parameter (V1); the test accepts exactly the closed declared range, decided over the finite set of orderings of candidate vs bounds (V2); every class Model/HIP-RA can instantiate routes its whole ParameterDict through a canonical reader loop with no extra guard/filter/early exit (V3); no try/except on a path from an entry point to the reader swallows the rejection (V4); every numeric declaration's initial/default value lies in its declared domain, because the reader returns before the test for inputs equal to it (V6, exhaustive over all declarations); the tested value is not a lossy coercion of the text (V7); special-case stores from raw text come after validation (V8). This is the right level because acceptance depends only on comparisons and routing, both visible in the code's shape for every input.",
   "note": "Trusted: CPython ast; the call-resolution of gxstat.callgraph (over-approximate on unknown receivers); declared Min/Max/AllowableRange constant-folded from source (1 declaration not foldable, reported). Not decided: pint errors for unit-suffixed inputs; list-valued parameters.",
   "technique": "AST dominance/typestate walk over ReadParameter + finite-ordering evaluation of the range predicate + call-graph routing and exception-handler analysis + exhaustive declaration-table check",
+ },
+}
+ "C08": {
+  "text": "Static effect/typestate analysis of the clauses visible in code shape: every library wrapper and __main__ from which os.chdir or a sys.argv store is reachable in-process stashes the state and restores it in a finally covering every mutating site (P1, call-graph based, process-pool boundary respected); inventory of all process-wide mutable state (globals, class-level mutables, foreign-module attribute writes, 12 memoised functions) against an allow-list with reasons, anything new is a violation (P2); a run builds a fresh Model and all 541 parameter objects inside __init__ (P3); clock/uuid/hash/RNG values flow only to stamp lines, logs and temp-file names (P4); the client cache key depends on the request text and the cached/parsed result is the request's own (P5); no mutable default arguments (P6). Numerical identity of repeated runs is not decidable statically and is not claimed.",
+  "note": "Trusted: gxstat call graph (by-name resolution on unknown receivers), allow-list rows in rules/c08.py (each with its reason). Assumes a callable handed to ProcessPoolExecutor runs in another process. Not decided: bit-identical floats across histories, third-party internal caches.",
+  "technique": "call-graph effect analysis + try/finally typestate check + global-state inventory against a reasoned allow-list + syntactic taint of nondeterminism sources to sinks",
+ },
+ "C13": {
+  "text": "Static decision of the RNG discipline and row-count clauses: every draw from numpy's global generator inside the callable handed to ProcessPoolExecutor is dominated by a reseed from fresh entropy (or per-task generator / reseeding pool initializer) (M1); exactly one complete, newline-terminated row is appended unconditionally inside the lock per non-raising path (M2); the distribution dispatch covers exactly the five documented names, each arm calling the same-named numpy distribution with the settings fields in order and recording the drawn value verbatim (M3). Distinctness and support of samples then follow from numpy's documented semantics, which are assumed, not analysed.",
+  "note": "Trusted: numpy.random.seed() reseeds from OS entropy; pool workers have their own generator copy. Not decided: statistical quality, OS scheduling.",
+  "technique": "AST dominance check of reseed over draw sites in pool-submitted callables + path counting of the locked append + dispatch-table comparison",
+ },
+ "C14": {
+  "text": "Static decision of the structural clauses: one token per requested output on every path, header/row iterate the same lists in the same order, pass_list packing positions equal unpacking positions (Q1); single write inside the lock, failed acquisition not silently dropped (Q2); each reported statistic is filled from the matching numpy reducer over axis 0 of the parsed rows and text block and JSON come from one dictionary (Q3); the task never mutates objects shared through pass_list and uses uniquely named temp files (Q4); the sampled values recorded in the row are exactly the text appended to the simulated file (Q5). Re-simulating a row is a runtime property and not claimed.",
+  "note": "Trusted: numpy reducer semantics, pylocker providing mutual exclusion while the with-block runs. Two genuine defects are recorded as known findings (Q1 skipped token, Q2 dropped row on lock time-out).",
+  "technique": "AST path counting, alias/position tables between cooperating sites, reducer-pairing table check, mutation-effect scan of the worker",
+ },
+ "C20": {
+  "text": "Static decision of: one simulation pipeline (Model -> read_parameters -> Calculate -> PrintOutputs -> JSON) exists only in GEOPHIRESv3.main, unconditional and in order, and CLI, client and Monte-Carlo driver reach it (N1); `python -m geophires_x` ends non-zero on every path where main() does not return normally: rc initialised non-zero, set to 0 only after main() returns, every status-less sys.exit()/exit() reachable from main() is intercepted and mapped to non-zero, report-writer failures are not swallowed (N2); argv[1]/argv[2] are made absolute before main() changes directory, default HDR.out in the caller's cwd, JSON path derived from the report path (N3). Byte-identical reports across entry points depend on run-time state and are not claimed.",
+  "note": "Trusted: gxstat call graph for reachability of exit sites (over-approximate). Not decided: file-system behaviour; the undocumented script entry without argv[2].",
+  "technique": "call-graph who-may-call rule + must-pass-through ordering in main + exit-status typestate on __main__'s try/except/finally",
  },
 }
 
